@@ -7,7 +7,7 @@ From LV Require Import Base.Bytes Model.Obj Model.DocQ Model.PageTree Model.Trav
   Proofs.EditProofsDelete Proofs.EditProofsKF Proofs.EditProofsContent Model.EditV0 Model.Renumber
   Proofs.EditProofsBm Proofs.EditProofsOutline Proofs.EditProofsContent2 Proofs.EditProofsDecode Proofs.EditProofsRes
   Proofs.EditProofsEx2 Proofs.EditProofsCount Model.StreamFilt.
-From LV Require Import Gen.Consts Spec.Dfs Spec.DfsCounts Spec.PageTreeEdit Proofs.EditProofsTree Proofs.EditProofsTree2 Proofs.EditProofsRes2 Proofs.EditProofsFrame.
+From LV Require Import Gen.Consts Spec.Dfs Spec.DfsCounts Spec.PageTreeEdit Proofs.EditProofsTree Proofs.EditProofsTree2 Proofs.EditProofsRes2 Proofs.EditProofsFrame Proofs.EditProofsTree3.
 From LV Require Proofs.PageTreeProofs.
 From LV Require Proofs.FilterProofsDict.
 From LV Require Model.Outline Spec.OutlineSpec Proofs.OutlineProofs.
@@ -536,6 +536,46 @@ Theorem C11_delete_pages_tree_example :
 Proof. exact tree_example. Qed.
 
 (* ------------------------------------------------------------------------------------------ *)
+(* I_count as an INVARIANT of editing programs: "Page-tree Counts equal the number of leaf pages" after every sequence of calls.
+   [page_doc d t] survives every operation of [step] (allocate, add, replace, delete object, remove annotation, prune, delete
+   pages, compress, decompress, the four content operations, the three resource operations, get_page_content, save in
+   either format) with the SAME tree t, except that delete_pages prunes it ([tree_after]).  Domain of a step ([tree_op_dom]):
+   * set_object / delete_object do not aim at a node of the tree or at the catalog ([tree_or_cat]) -- these two calls replace
+     or delete one object and by design do no page-tree bookkeeping; deleting a page is what delete_pages is for
+     (set_object also meets C11_alloc_invariant's condition: the id is at or below the cursor);
+   * renumber_objects is excluded here: it renames the nodes (C10: the graph is the same up to the renaming);
+   * add_xobject is not given Type / Kids / Count / Parent / Pages as the resource NAME (with an indirect XObject entry that
+     leads to a page-tree node -- an ill-typed graph -- such a name would overwrite the node's entry).
+   Method (Proofs/EditProofsTree3.v): the tree only reads these five entries of dictionary objects and the trailer's Root; every
+   other operation leaves them alone in EVERY dictionary object, keeps keys unique and removes no node (prune_objects: the
+   tree is reachable from the trailer; compress / decompress / change_content_stream touch streams only). *)
+Theorem C11_count_invariant_step :
+  forall O d t o,
+    doc_wf d -> alloc_ok d -> page_doc d t -> hbound t -> tree_op_dom d t o ->
+    page_doc (fst (step O d o)) (tree_after d t o) /\ hbound (tree_after d t o).
+Proof. exact step_page_doc. Qed.
+
+(* ... over whole programs: at the end the document holds the tree [tree_end] (the starting tree pruned by the delete_pages
+   calls of the program, each reading ITS page numbers off the document it meets), every Pages node's Count is the number of
+   leaves below it, and the page enumeration is the leaves of that tree *)
+Theorem C11_count_invariant :
+  forall O ops d t,
+    doc_wf d -> alloc_ok d -> page_doc d t -> hbound t -> tree_prog_dom O d t ops ->
+    let d' := run_ops O d ops in let t' := tree_end O d t ops in
+    doc_wf d' /\ alloc_ok d' /\ page_doc d' t' /\ hbound t' /\
+    page_iter d' = leaves t' /\ counts_exact (d_objects d') t'.
+Proof. exact run_ops_page_doc. Qed.
+
+(* non-vacuity: on the three-level tree: append content to page 3, add an object (7), add an XObject name to page 6 (this
+   allocates nothing), delete page 2, delete object 8 (absent), save, compress, delete page 1 twice *)
+Theorem C11_count_invariant_example :
+  doc_wf tree_doc /\ alloc_ok tree_doc /\ page_doc tree_doc tree_ex /\ hbound tree_ex /\
+  tree_prog_dom O_id tree_doc tree_ex tree_prog /\
+  tree_end O_id tree_doc tree_ex tree_prog = PNode (2,0)%N [PNode (4,0)%N []; PLeaf (6,0)%N] /\
+  page_iter (run_ops O_id tree_doc tree_prog) = [(6,0)%N].
+Proof. exact tree_prog_example. Qed.
+
+(* ------------------------------------------------------------------------------------------ *)
 (* non-vacuity: a concrete document with a page tree and a program that adds a nested bookmark forest (1 > 2 > 3, and 4),
    allocates, builds the outline, allocates again, saves with a cross-reference stream and allocates once more meets the
    hypotheses of (1), (2'') and (3); twelve numbers are taken, all different (19 is the cross-reference stream's) *)
@@ -608,5 +648,8 @@ Print Assumptions C11_delete_pages_tree.
 Print Assumptions C11_delete_page_step.
 Print Assumptions C11_page_doc_is_tree_wf.
 Print Assumptions C11_delete_pages_tree_example.
+Print Assumptions C11_count_invariant_step.
+Print Assumptions C11_count_invariant.
+Print Assumptions C11_count_invariant_example.
 Print Assumptions C11_example.
 Print Assumptions C11_example_doc_ops.
